@@ -32,7 +32,7 @@ def worker(k, items):
             continue
         shutil.rmtree(out, ignore_errors=True)
         env = dict(os.environ, VERIF_REPO=wt, VERIF_CACHE=f"{VERIF}/.cache/w{k}", VERIF_OUT=out)
-        r = subprocess.run(["./check", "all"], cwd=VERIF, env=env, text=True, stdout=subprocess.PIPE, stderr=subprocess.STDOUT)
+        r = subprocess.run(["./check"] + (os.environ.get("CHECKS", "all").split()), cwd=VERIF, env=env, text=True, stdout=subprocess.PIPE, stderr=subprocess.STDOUT)
         keys = []
         for line in r.stdout.splitlines():
             m = re.search(r"key=(\S.*)$", line)
